@@ -421,6 +421,12 @@ def run(repo, rep):
     from . import c10 as _c10
 
     rep.run_borrowed(_c10, {"C10-e": "C03-r"}, repo)
+    rep.clause("C03-s", "rolling buffers are sized from the consumer's stripe input (role-named parameters receive the operand of that role) [rule shared with C10-g]; a zero-length usage keeps its one time step [C05-b]; a feature map that leaves its subgraph stays where the next subgraph looks for it: moved to fast storage only if no consumer entry is the subgraph-output marker [C12-e]")
+    rep.run_borrowed(_c10, {"C10-g": "C03-s"}, repo, only_sites=("cascade_builder",))
+    from . import c05 as _c05
+
+    rep.run_borrowed(_c05, {"C05-b": "C03-s"}, repo, only_sites=("mark_usage",))
+    rep.run_borrowed(c12, {"C12-e": "C03-s"}, repo, only_sites=("use_fast_storage_for_feature_maps",))
     rep.clause("C03-p", "equivalence id keys determine the bytes of the tensor: values together with the element type")
     rule_equivalence_keys(repo, rep)
     rep.clause("C03-m", "LUT residency extents are byte extents (address + storage_size())")
